@@ -371,8 +371,10 @@ def events(b, rng, exp, ver, players, vehicles, consts):
                         b.trace.append(['roster', row['id'], [[k, json.dumps(v)] for k, v in row.items()]])
 
     n = rng.randint(8, 25)
-    for _ in range(n):
-        r = rng.random()
+    # every kind of event at least three times (counts, sums and orders are only observable with repetition), then random ones
+    forced = [0.1, 0.2, 0.4, 0.55, 0.65, 0.75, 0.85, 0.95] * 3
+    rng.shuffle(forced)
+    for r in forced + [rng.random() for _ in range(n)]:
         if r < 0.15 and len(vehicles) >= 2:
             victim, killer = rng.sample(vehicles, 2)
             typ = rng.choice(list(getattr(consts, 'DEATH_TYPES', {1: 0}).keys()) or [1])
@@ -467,6 +469,15 @@ def events(b, rng, exp, ver, players, vehicles, consts):
         elif r < 0.9:
             # roster update / mid-battle join: right-biased merge by id
             roster_message(rng.choice(['onGameRoomStateChanged', 'onNewPlayerSpawnedInBattle']))
+    # at least two different deaths, so that their order is observable
+    if len(vehicles) >= 2:
+        for victim, killer in ((vehicles[0], vehicles[1]), (vehicles[1], vehicles[0])):
+            if len({tuple(d) for d in deaths}) >= 2:
+                break
+            typ = sorted(getattr(consts, 'DEATH_TYPES', {1: 0}).keys() or [1])[0]
+            if b.call(AVATAR_ID, 'receiveVehicleDeath', [victim, killer, typ]):
+                deaths.append([victim, killer, typ])
+                b.trace.append(['death', victim, killer, typ])
     # every battle ends with one roster message of each kind carrying all three lists
     for meth in ('onGameRoomStateChanged', 'onNewPlayerSpawnedInBattle'):
         roster_message(meth, force_all=True)
